@@ -380,7 +380,7 @@ def rule_fatlen(ctx, rep):
         for b in F.body_list:
             B = cfg.Body(b)
             for bi, t in B.calls():
-                if atomics.callee_of(t) not in ("core::ptr::slice_from_raw_parts_mut", "core::ptr::slice_from_raw_parts"):
+                if atomics.callee_of(t) not in ("core::ptr::slice_from_raw_parts_mut", "core::ptr::slice_from_raw_parts", "<core::ptr::non_null::NonNull<[T]>>::slice_from_raw_parts"):
                     continue
                 # does the result become a block pointer?
                 dl = t["dest"]["l"]
